@@ -382,12 +382,12 @@ func (tr *Tr) pointerTypeFacts(fr *Frame, elem types.Type, p Val) {
 		if containsByValue(n, elem, 0) {
 			continue
 		}
-		key := fmt.Sprintf("p%d|%d", p[0].id, typeTag(n))
+		key := fmt.Sprintf("p%d|%d|%p", p[0].id, typeTag(n), fr.cur)
 		if tr.typeFactCache[key] {
 			continue
 		}
 		tr.typeFactCache[key] = true
-		tr.assume(f.Or(f.Eq(p[0], f.BVi(64, 0)), f.Neq(tr.rtype(p[0]), f.BVu(64, typeTag(n)))),
+		tr.assumeHere(f.Or(f.Eq(p[0], f.BVi(64, 0)), f.Neq(tr.rtype(p[0]), f.BVu(64, typeTag(n)))),
 			"a *"+types.TypeString(elem, nil)+" does not point into an object allocated as "+n.Obj().Name())
 	}
 }
@@ -400,12 +400,12 @@ func (tr *Tr) sliceTypeFacts(elem types.Type, reg *Term) {
 		if containsByValue(n, elem, 0) {
 			continue
 		}
-		key := fmt.Sprintf("s%d|%d", reg.id, typeTag(n))
+		key := fmt.Sprintf("s%d|%d|%p", reg.id, typeTag(n), tr.fr().cur)
 		if tr.typeFactCache[key] {
 			continue
 		}
 		tr.typeFactCache[key] = true
-		tr.assume(f.Or(f.Eq(reg, f.BVi(64, 0)), f.Neq(tr.rtype(reg), f.BVu(64, typeTag(n)))),
+		tr.assumeHere(f.Or(f.Eq(reg, f.BVi(64, 0)), f.Neq(tr.rtype(reg), f.BVu(64, typeTag(n)))),
 			"the backing array of a []"+types.TypeString(elem, nil)+" is not inside an object allocated as "+n.Obj().Name())
 	}
 }
